@@ -411,13 +411,27 @@ struct Out {
 fn emit_program(out: &mut Out, id: &str, tast: &tast::File, genv: &GlobalTypeEnv, src: &str, show_src: bool) {
     // the surface syntax of the same text, from the repository's own parser and lowering
     let src_file = crate::astdump::parse_lower(std::path::Path::new("main.gom"), src).ok();
+    // which bare identifiers of the written patterns are constructors is NOT taken from the lowering:
+    // harness/src/patrule.rs applies the language's rule (constructor of the same file, whatever is in
+    // scope) to the syntax node; a pattern the lowering classified otherwise is a row of its own
+    let ctors = src_file.as_ref().map(crate::patrule::file_ctors).unwrap_or_default();
+    let mism = src_file.as_ref().map(crate::patrule::mismatches).unwrap_or_default();
+    if let Some(f) = src_file.as_ref() {
+        let (c, b) = crate::patrule::count_bare(f);
+        *out.kinds.entry("bare-identifier-patterns:constructor-by-rule".to_string()).or_default() += c;
+        *out.kinds.entry("bare-identifier-patterns:binder-by-rule".to_string()).or_default() += b;
+    }
     let sites = sites_of(tast, src_file.as_ref());
-    if sites.is_empty() {
+    if sites.is_empty() && mism.is_empty() {
         return;
     }
     writeln!(out.text, "{}\tSIG\t{}", id, sig(genv).to_text()).unwrap();
-    if show_src {
+    if show_src || !mism.is_empty() {
         writeln!(out.text, "{}\tSRC\t{}", id, crate::sexp::esc_line(src)).unwrap();
+    }
+    for m in &mism {
+        let line = src[..(m.offset as usize).min(src.len())].matches('\n').count() + 1;
+        writeln!(out.text, "{}\tPATCLASS\t{}\t{}\t{}\t{}\t{}", id, m.kind, m.name, m.offset, line, m.func).unwrap();
     }
     for (k, (site, written)) in sites.iter().enumerate() {
         let tail = compile_site(genv, site);
@@ -431,10 +445,25 @@ fn emit_program(out: &mut Out, id: &str, tast: &tast::File, genv: &GlobalTypeEnv
         *out.kinds.entry(if written.is_some() { "aligned-with-source".to_string() } else { "not-aligned".to_string() }).or_default() += 1;
         out.sites += 1;
         let w = match written {
-            Some(ps) => tagged("written", ps.iter().map(crate::astdump::pat).collect()).to_text(),
+            Some(ps) => tagged("written", ps.iter().map(|p| crate::patrule::pat(p, &ctors)).collect()).to_text(),
             None => "none".to_string(),
         };
         writeln!(out.text, "{}#{}\tSITE\t{}\t{}\t{}", id, k, site_sexp(site).to_text(), tail, w).unwrap();
+    }
+}
+
+/// a program the typer rejects has no site; what the lowering made of its bare-identifier patterns is
+/// judged all the same (a misread pattern is a frequent reason for the rejection)
+fn patclass_of_rejected(out: &mut Out, id: &str, src: &str) {
+    if let Ok(f) = crate::astdump::parse_lower(std::path::Path::new("main.gom"), src) {
+        let mism = crate::patrule::mismatches(&f);
+        if !mism.is_empty() {
+            writeln!(out.text, "{}\tSRC\t{}", id, crate::sexp::esc_line(src)).unwrap();
+        }
+        for m in &mism {
+            let line = src[..(m.offset as usize).min(src.len())].matches('\n').count() + 1;
+            writeln!(out.text, "{}\tPATCLASS\t{}\t{}\t{}\t{}\t{}", id, m.kind, m.name, m.offset, line, m.func).unwrap();
+        }
     }
 }
 
@@ -748,7 +777,7 @@ fn one_col(t: CT, max_rows: usize, budget: usize, rng: &mut Rng, out: &mut Vec<M
     }
 }
 
-fn gen_small(args: &util::Args, out: &mut Out, stats: &mut BTreeMap<String, usize>) {
+fn gen_small(args: &util::Args, out: &mut Out, stats: &mut BTreeMap<String, usize>, pipe: &mut String) {
     let thorough = args.tier == "thorough";
     let mut rng = Rng::new(args.seed).fork(0x06);
     let mut ms: Vec<Matrix> = Vec::new();
@@ -791,14 +820,16 @@ fn gen_small(args: &util::Args, out: &mut Out, stats: &mut BTreeMap<String, usiz
         let id = format!("small:{}:{}", args.seed, bi);
         match typecheck(&path, &src) {
             Ok((tast, genv)) => emit_program(out, &id, &tast, &genv, &src, true),
-            Err(e) => writeln!(out.text, "{}\tREJECT\t{}\t{}", id, crate::sexp::esc_line(&e), crate::sexp::esc_line(&src)).unwrap(),
+            Err(e) => {
+                writeln!(out.text, "{}\tREJECT\t{}\t{}", id, crate::sexp::esc_line(&e), crate::sexp::esc_line(&src)).unwrap();
+                patclass_of_rejected(out, &id, &src);
+            }
         }
     }
     let _ = std::fs::remove_dir_all(&dir);
 
     // whole-pipeline stream: the same matrices as runnable programs, every stage dumped for the
     // stage-wise oracle (Core behaviour must survive mono / lift / ANF / Go)
-    let mut pipe = String::new();
     let np = if thorough { 3000 } else { 400 };
     let dirp = util::scratch_dir("c06p");
     let cands: Vec<&Matrix> = ms.iter().filter(|m| !m.as_let).collect();
@@ -822,7 +853,7 @@ fn gen_small(args: &util::Args, out: &mut Out, stats: &mut BTreeMap<String, usiz
                 n_ok += 1;
                 writeln!(pipe, "{}\tEXPECT\tnone\t", id).unwrap();
                 writeln!(pipe, "{}\tSRC\t{}", id, crate::sexp::esc_line(&src)).unwrap();
-                crate::c01::dump_case(&id, &c, &mut pipe);
+                crate::c01::dump_case(&id, &c, pipe);
                 emit_program(out, &id, &c.tast, &c.genv, &src, true);
             }
             util::Outcome::Err(stage, msgs) => {
@@ -833,8 +864,33 @@ fn gen_small(args: &util::Args, out: &mut Out, stats: &mut BTreeMap<String, usiz
     }
     *stats.entry("pipeline-programs".into()).or_default() += n_ok;
     let _ = std::fs::remove_dir_all(&dirp);
-    let _ = std::fs::create_dir_all(&args.out);
-    std::fs::write(args.out.join("c06pipe.cases.tsv"), pipe).unwrap();
+}
+
+// ---------------------------------------------------------------- constructor names in pattern position under same-spelled locals
+
+/// harness/src/patpos.rs: every program's sites under the first-match oracle (source side: the rule
+/// of patrule.rs), and the whole program through the real pipeline with the output it prints by
+/// construction
+fn gen_patpos(out: &mut Out, stats: &mut BTreeMap<String, usize>, pipe: &mut String) {
+    let dir = util::scratch_dir("c06n");
+    for case in crate::patpos::catalogue() {
+        *stats.entry("patpos-programs".into()).or_default() += 1;
+        match util::compile_text(&dir, &case.src) {
+            util::Outcome::Ok(c) => {
+                writeln!(pipe, "{}\tEXPECT\tout\t{}", case.id, crate::sexp::esc_line(&case.expected)).unwrap();
+                writeln!(pipe, "{}\tSRC\t{}", case.id, crate::sexp::esc_line(&case.src)).unwrap();
+                crate::c01::dump_case(&case.id, &c, pipe);
+                emit_program(out, &case.id, &c.tast, &c.genv, &case.src, true);
+            }
+            util::Outcome::Err(stage, msgs) => {
+                writeln!(pipe, "{}\tREJECT\t{}\t{}\t{}", case.id, stage, crate::sexp::esc_line(&msgs.join(" | ")), crate::sexp::esc_line(&case.src)).unwrap();
+                // the lowering's verdict on the patterns is still judged
+                patclass_of_rejected(out, &case.id, &case.src);
+            }
+            util::Outcome::Panic(m) => writeln!(pipe, "{}\tPANIC\t{}\t{}", case.id, crate::sexp::esc_line(&m), crate::sexp::esc_line(&case.src)).unwrap(),
+        }
+    }
+    let _ = std::fs::remove_dir_all(&dir);
 }
 
 // ---------------------------------------------------------------- main
@@ -852,7 +908,10 @@ pub fn main(args: &util::Args) {
             let id = format!("repo:{}", d.file_name().unwrap().to_string_lossy());
             match typecheck(&path, &src) {
                 Ok((tast, genv)) => emit_program(&mut out, &id, &tast, &genv, &src, false),
-                Err(e) => writeln!(out.text, "{}\tREJECT\t{}\t", id, crate::sexp::esc_line(&e)).unwrap(),
+                Err(e) => {
+                    writeln!(out.text, "{}\tREJECT\t{}\t", id, crate::sexp::esc_line(&e)).unwrap();
+                    patclass_of_rejected(&mut out, &id, &src);
+                }
             }
         }
         // minimised past failures
@@ -869,7 +928,10 @@ pub fn main(args: &util::Args) {
                 let _ = std::fs::write(&path, &src);
                 match typecheck(&path, &src) {
                     Ok((tast, genv)) => emit_program(&mut out, &id, &tast, &genv, &src, true),
-                    Err(e) => writeln!(out.text, "{}\tREJECT\t{}\t{}", id, crate::sexp::esc_line(&e), crate::sexp::esc_line(&src)).unwrap(),
+                    Err(e) => {
+                        writeln!(out.text, "{}\tREJECT\t{}\t{}", id, crate::sexp::esc_line(&e), crate::sexp::esc_line(&src)).unwrap();
+                        patclass_of_rejected(&mut out, &id, &src);
+                    }
                 }
             }
             let _ = std::fs::remove_dir_all(&dir);
@@ -884,15 +946,25 @@ pub fn main(args: &util::Args) {
                 let _ = std::fs::write(&path, &src);
                 match typecheck(&path, &src) {
                     Ok((tast, genv)) => emit_program(&mut out, "replay", &tast, &genv, &src, true),
-                    Err(e) => writeln!(out.text, "replay\tREJECT\t{}\t{}", crate::sexp::esc_line(&e), crate::sexp::esc_line(&src)).unwrap(),
+                    Err(e) => {
+                        writeln!(out.text, "replay\tREJECT\t{}\t{}", crate::sexp::esc_line(&e), crate::sexp::esc_line(&src)).unwrap();
+                        patclass_of_rejected(&mut out, "replay", &src);
+                    }
                 }
                 let _ = std::fs::remove_dir_all(&dir);
             }
         }
     }
+    let mut pipe = String::new();
     if only == "all" || only == "small" {
-        gen_small(args, &mut out, &mut stats);
+        gen_small(args, &mut out, &mut stats, &mut pipe);
     }
+    if only == "all" || only == "patpos" {
+        gen_patpos(&mut out, &mut stats, &mut pipe);
+    }
+    // always written: a replay (`file`) must not read the whole-pipeline rows of an earlier run
+    let _ = std::fs::create_dir_all(&args.out);
+    std::fs::write(args.out.join("c06pipe.cases.tsv"), &pipe).unwrap();
     if only == "all" || only == "prog" {
         let total = args.n.unwrap_or(if args.tier == "thorough" { 3000 } else { 300 });
         let dir = util::scratch_dir("c06p");
@@ -924,7 +996,10 @@ pub fn main(args: &util::Args) {
                     }
                     emit_program(&mut out, &id, &tast, &genv, &src, true)
                 }
-                Err(e) => writeln!(out.text, "{}\tREJECT\t{}\t{}", id, crate::sexp::esc_line(&e), crate::sexp::esc_line(&src)).unwrap(),
+                Err(e) => {
+                    writeln!(out.text, "{}\tREJECT\t{}\t{}", id, crate::sexp::esc_line(&e), crate::sexp::esc_line(&src)).unwrap();
+                    patclass_of_rejected(&mut out, &id, &src);
+                }
             }
         }
         writeln!(out.text, "#FEATS\t{}", feats_total.iter().map(|(k, v)| format!("{}={}", k, v)).collect::<Vec<_>>().join(" ")).unwrap();
